@@ -129,12 +129,25 @@ pub fn run(cfg: &Cfg) -> Report {
         if set.len() > 6 {
             set.truncate(6);
         }
+        // every order merges every data once: large data (recursive streams) get fewer orders
+        let total_bytes: usize = set.iter().map(|d| d.len()).sum();
+        let heavy = total_bytes > 150_000;
+        if heavy {
+            st.inc("histories_with_large_data_merged_in_fewer_orders", 1);
+            set.truncate(4);
+        }
         st.inc("histories_judged", 1);
         let tainted_inputs = super::taint::first_drop(h).is_some();
         let streamless = !c.has_streams && c.world.script.is_some();
         // orders: all permutations for up to 4 data, else random ones
         let mut orders: Vec<Vec<usize>> = vec![];
-        if set.len() <= 4 {
+        if heavy {
+            for _ in 0..4 {
+                let mut o: Vec<usize> = (0..set.len()).collect();
+                rng.shuffle(&mut o);
+                orders.push(o);
+            }
+        } else if set.len() <= 4 {
             permutations(set.len(), &mut orders);
         } else {
             for _ in 0..16 {
